@@ -298,7 +298,7 @@ func (session *ClientCommandSession) runReadLoop() {
 			if isInterleaved {
 				session.observer.OnInterleavedPacket(packet, int(channel))
 			} else {
-				if _, err := nazahttp.ReadHttpResponseMessage(r); err != nil {
+				if _, err := readHttpResponseMessage(r); err != nil {
 					loopErr = err
 					return
 				}
@@ -596,7 +596,7 @@ func (session *ClientCommandSession) writeCmdReadResp(method, uri string, header
 			return
 		}
 
-		ctx, err = nazahttp.ReadHttpResponseMessage(session.conn)
+		ctx, err = readHttpResponseMessage(session.conn)
 		if err != nil {
 			return
 		}
